@@ -305,7 +305,7 @@ func c19pix(sp *c19spec) []byte {
 	r := rand.New(rand.NewSource(sp.PatSeed))
 	pix := c19grow(&c19scr.pix, sp.PixLen)
 	pix = pix[:sp.PixLen:sp.PixLen] // cap == len: reading past the end must panic, not see scratch
-	r.Read(pix) // garbage everywhere first (padding, tail, X channel)
+	r.Read(pix)                     // garbage everywhere first (padding, tail, X channel)
 	rb := sp.W * t.inBpp
 	for y := 0; y < sp.H; y++ {
 		row := pix[y*sp.Stride : y*sp.Stride+rb]
@@ -802,7 +802,7 @@ func c19case(rc *vk.Rec, r *rand.Rand, phase string, idx int64) {
 		history = append(history, sp)
 		extra := func() map[string]interface{} {
 			m := map[string]interface{}{"sequence": append([]interface{}{}, history...), "at": i, "reuse_position": pos,
-				"call": fmt.Sprintf("Encode(w, pix, %d, %d, %d, Depth%d, %s)", sp.W, sp.H, sp.Stride, t.depth, t.name),
+				"call":       fmt.Sprintf("Encode(w, pix, %d, %d, %d, Depth%d, %s)", sp.W, sp.H, sp.Stride, t.depth, t.name),
 				"pix_recipe": "c19pix(spec) in /verif/internal/mon/c19.go: math/rand.NewSource(patseed)"}
 			if len(pix) <= 512 {
 				m["pix_hex"] = hex.EncodeToString(pix)
